@@ -227,9 +227,10 @@ structure Prims (S : Type) where
   /-- the encoded `UpgradeChangeHashes` item (id, length) if `pre_execute_transactions` executed an
   upgrade at this height -/
   upgradeItem : S → PrepReq → Option (Nat × Nat)
-  /-- the extended-commit-info item `PrepareProposal` builds (id, length) and the empty fallback -/
+  /-- the extended-commit-info item `PrepareProposal` builds (id, length) and the well-formed empty
+  fallback (`ExtendedCommitInfoWithCurrencyPairMapping::empty(round)`, encoded) -/
   eciFull : S → PrepReq → Nat × Nat
-  eciEmpty : Nat × Nat
+  eciEmpty : PrepReq → Nat × Nat
   /-- `post_execute_transactions` after the fingerprint update: end_block, deposits, sequencer
   block, upgrades end_block. Returns the new state and an opaque digest of (events, validator
   updates, consensus-param updates). -/
@@ -419,8 +420,9 @@ def postStep {S : Type} (p : Prims S) (a : AppState S) (b : Block) (pd : Parsed)
          .ok ())
 
 /-- The extended-commit-info item of a proposal: none if vote extensions are not enabled at this
-height; the full item if it fits; else "try just adding an empty extended commit info"
-(`DataItem::ExtendedCommitInfo(Bytes::new())`, which no parser accepts); else an error. -/
+height; the full item if it fits; else "try just adding an empty extended commit info": the encoded
+`ExtendedCommitInfoWithCurrencyPairMapping::empty(round)` (well-formed since `fix:` commit 259c046;
+the pinned behaviour is `prepEciOriginal`); else an error. -/
 def prepEci {S : Type} (p : Prims S) (s : S) (r : PrepReq) (bsc : BSC) : Except Err (Option Item × BSC) :=
   if p.veEnabled s r.height then
     match r.lastCommit with
@@ -429,27 +431,47 @@ def prepEci {S : Type} (p : Prims S) (s : S) (r : PrepReq) (bsc : BSC) : Except 
       match bsc.cometAdd (p.eciFull s r).2 with
       | .ok bsc' => .ok (some (.eci (p.eciFull s r).1 (p.eciFull s r).2 true), bsc')
       | .error _ =>
-        match bsc.cometAdd p.eciEmpty.2 with
-        | .ok bsc' => .ok (some (.eci p.eciEmpty.1 p.eciEmpty.2 false), bsc')
+        match bsc.cometAdd (p.eciEmpty r).2 with
+        | .ok bsc' => .ok (some (.eci (p.eciEmpty r).1 (p.eciEmpty r).2 true), bsc')
+        | .error _ => .error .injected
+  else .ok (none, bsc)
+
+/-- `prepEci` as it was at the pinned commit (before `fix:` 259c046): the fallback item was
+`DataItem::ExtendedCommitInfo(Bytes::new())`, which no parser accepts (`wellFormed = false`). -/
+def prepEciOriginal {S : Type} (p : Prims S) (s : S) (r : PrepReq) (bsc : BSC) : Except Err (Option Item × BSC) :=
+  if p.veEnabled s r.height then
+    match r.lastCommit with
+    | none => .error .nolastcommit
+    | some _ =>
+      match bsc.cometAdd (p.eciFull s r).2 with
+      | .ok bsc' => .ok (some (.eci (p.eciFull s r).1 (p.eciFull s r).2 true), bsc')
+      | .error _ =>
+        match bsc.cometAdd (p.eciEmpty r).2 with
+        | .ok bsc' => .ok (some (.eci (p.eciEmpty r).1 (p.eciEmpty r).2 false), bsc')
         | .error _ => .error .injected
   else .ok (none, bsc)
 
 /-- The items `prepare_proposal` injects after the two commitments, with their sizes accounted:
 the upgrade change hashes (if an upgrade was executed; "exceeded size limit while adding upgrade
 change hashes" if they do not fit) and the extended commit info. -/
-def prepInjected {S : Type} (p : Prims S) (s : S) (r : PrepReq) (bsc : BSC) : Except Err (List Item × BSC) :=
+def prepInjectedWith {S : Type} (eciOf : Prims S → S → PrepReq → BSC → Except Err (Option Item × BSC))
+    (p : Prims S) (s : S) (r : PrepReq) (bsc : BSC) : Except Err (List Item × BSC) :=
   match p.upgradeItem s r with
   | none =>
-    match prepEci p s r bsc with
+    match eciOf p s r bsc with
     | .error e => .error e
     | .ok (e, b) => .ok (e.toList, b)
   | some (ub, ul) =>
     match bsc.cometAdd ul with
     | .error _ => .error .injected
     | .ok bsc' =>
-      match prepEci p s r bsc' with
+      match eciOf p s r bsc' with
       | .error e => .error e
       | .ok (e, b) => .ok (Item.upgrade ub ul :: e.toList, b)
+
+/-- the injected items of the current code -/
+def prepInjected {S : Type} (p : Prims S) (s : S) (r : PrepReq) (bsc : BSC) : Except Err (List Item × BSC) :=
+  prepInjectedWith prepEci p s r bsc
 
 /-- the `txs` of the `PrepareProposal` response -/
 def proposalItems (r1 r2 : Nat) (inj : List Item) (done : List Executed) : List Item :=
@@ -460,8 +482,9 @@ def PrepReq.fp (r : PrepReq) (items : List Item) : CachedProposal :=
   { time := r.time, proposer := r.proposer, txs := items, lastCommit := r.lastCommit,
     misbehavior := r.misbehavior, nextValHash := r.nextValHash, height := r.height }
 
-/-- `prepare_proposal` -/
-def stepPrepare {S : Type} (p : Prims S) (a : AppState S) (r : PrepReq) : AppState S × Resp S :=
+/-- `prepare_proposal`, parametric in how the injected items are chosen -/
+def stepPrepareWith {S : Type} (injOf : Prims S → S → PrepReq → BSC → Except Err (List Item × BSC))
+    (p : Prims S) (a : AppState S) (r : PrepReq) : AppState S × Resp S :=
   let a := a.reset
   match p.pre a.work (r.asBlock []) with
   | .error _ => (a, .prepareErr .pre)
@@ -470,7 +493,7 @@ def stepPrepare {S : Type} (p : Prims S) (a : AppState S) (r : PrepReq) : AppSta
     match BSC.new r.maxTxBytes with
     | .error e => (a, .prepareErr e)
     | .ok bsc =>
-      match prepInjected p s1 r bsc with
+      match injOf p s1 r bsc with
       | .error e => (a, .prepareErr e)
       | .ok (inj, bsc) =>
         match prepLoop p (LoopSt.init s1 bsc) r.queue with
@@ -481,6 +504,14 @@ def stepPrepare {S : Type} (p : Prims S) (a : AppState S) (r : PrepReq) : AppSta
           match a.exec.setPrepared (r.fp items) with
           | .error e => (a, .prepareErr e)
           | .ok ex => ({ a with exec := ex }, .prepared items)
+
+/-- `prepare_proposal` -/
+def stepPrepare {S : Type} (p : Prims S) (a : AppState S) (r : PrepReq) : AppState S × Resp S :=
+  stepPrepareWith prepInjected p a r
+
+/-- `prepare_proposal` at the pinned commit (empty-bytes extended-commit-info fallback, F12) -/
+def stepPrepareOriginal {S : Type} (p : Prims S) (a : AppState S) (r : PrepReq) : AppState S × Resp S :=
+  stepPrepareWith (prepInjectedWith prepEciOriginal) p a r
 
 /-- the non-cached branch of `process_proposal` up to (excluding) `post_execute_transactions` -/
 def processExec {S : Type} (p : Prims S) (a : AppState S) (b : Block) (pd : Parsed) :
